@@ -1,0 +1,22 @@
+//go:build verif
+
+package threshold
+
+// Thin exported aliases of unexported pure functions, for the verification
+// harness under /verif. Compiled only with -tags verif.
+
+func VerifNewRBCEncoding(digest string, sender uint16, msgRound uint8) []byte {
+	return newRBCEncoding(digest, sender, msgRound)
+}
+
+func VerifRBCEncodingAck(r []byte) (digest []byte, sender uint16, msgRound uint8, err error) {
+	return rbcEncoding(r).Ack()
+}
+
+func VerifRBCEncodingPayload(r []byte) []byte {
+	return rbcEncoding(r).Payload()
+}
+
+func VerifMembershipSyncTopicName(members []uint16) []byte {
+	return membershipSyncTopicName(members)
+}
